@@ -35,7 +35,15 @@
 //!              `Option`: `is_some is_none unwrap`; `Vec::new`, `Vec::with_capacity`, `Bytes::from`;
 //!              octets model: `put_u8 put_u16 put_u32 put_u64 put_varint put_bytes cap`,
 //!              `get_u8 get_u16 get_u32 get_u64 get_varint get_bytes get_bytes_with_varint_length len is_empty to_vec`
-//!   not supported: `while`/`loop`/`break`/`continue`, closures, generics, traits, signed integers, floats,
+//!   stage 2    struct VIEWS (manifest: only the named fields; other fields ⇒ error), `while` loops on manifest FUEL
+//!              (`RustSem.whileFuel`; `continue` / `break` / `return` inside; panic site "<file>:<fn>: fuel exhausted"),
+//!              `let x = &mut place;` aliases, `Vec::insert` / `remove`, `Range::contains` / `is_empty`,
+//!              `for (i, x) in v.iter().enumerate()`, `Duration` (ns; compare / copy / `Duration::MAX`), `SocketAddr`,
+//!              `Box<T>`, `==` / `!=` on arrays / structs / enums / table types, `let mut x = None; … x = Some(e)`,
+//!              `&mut impl io::Read` / `&mut impl io::Write` parameters (cursor models; `read_exact(&mut buf[..])`,
+//!              `write_all`, `write`), calls that pass such cursors on, `Result` tail calls, `const N: usize`
+//!              generics (argument from turbofish or the array type of the `let`), `io::Error::new`, `i32` pass-through
+//!   not supported: `loop`, labelled loops, `break`/`continue` in `for`, closures, generics, traits, signed integers, floats,
 //!              references stored in data, `&mut` parameters other than `self` and the octets cursors,
 //!              `Err` returned from a `&mut self` method after `self` was mutated.
 
